@@ -28,6 +28,8 @@ type Class struct {
 	Stages       [][]int // compose: non-error result types per stage
 	In           int     // fmape, bind, traverse: element type
 	Outs         []int   // fmape, joine, bind, traverse: non-error result types
+	LastExpr     string  // apply: Go source of the pre-bound argument when it is not a typed value built from the op line
+	LastPayload  int     // apply: the payload that expression denotes
 	Split        bool    // bind: `fn, e := deriveFmap(f, g)` observed before `deriveJoin(fn, e)` (else the nested call)
 }
 
@@ -112,6 +114,9 @@ func (c *Class) GoSig() string {
 	case "flip":
 		return "deriveFlip(" + sig(c.Ps, c.Rs, "") + ")"
 	case "apply":
+		if c.LastExpr != "" {
+			return "deriveApply(" + sig(c.Ps, c.Rs, "") + ", " + c.LastExpr + ")"
+		}
 		return "deriveApply(" + sig(c.Ps, c.Rs, "") + ", last)"
 	case "uncurrycurry":
 		return "deriveUncurry(deriveCurry(" + sig(c.Ps, c.Rs, "") + "))"
@@ -283,7 +288,13 @@ func (c *Class) Source() string {
 			call = fmt.Sprintf("w(%s)", strings.Join(fl, ", "))
 		case "apply":
 			n := len(args)
-			build = fmt.Sprintf("\tw := deriveApply(F, %s)\n", args[n-1])
+			last := args[n-1]
+			if c.LastExpr != "" {
+				// an untyped constant, nil, a named constant or a concrete value for an interface parameter:
+				// the type of the pre-bound parameter must come from F, not from this expression
+				last = c.LastExpr
+			}
+			build = fmt.Sprintf("\tw := deriveApply(F, %s)\n", last)
 			call = fmt.Sprintf("w(%s)", strings.Join(args[:n-1], ", "))
 		case "uncurrycurry":
 			build = "\tw := deriveUncurry(deriveCurry(F))\n"
@@ -410,7 +421,11 @@ func (c *Class) Ops(rng *rand.Rand, cfg string, nargs int) []string {
 	switch c.Kind {
 	case "curry", "flip", "apply", "uncurrycurry":
 		for i := 0; i < nargs; i++ {
-			add(wireInts("args", payloads(rng, ptys(c.Ps))))
+			a := payloads(rng, ptys(c.Ps))
+			if c.Kind == "apply" && c.LastExpr != "" {
+				a[len(a)-1] = c.LastPayload // the bound value is written in the source
+			}
+			add(wireInts("args", a))
 		}
 	case "uncurry":
 		for i := 0; i < nargs; i++ {
